@@ -24,12 +24,12 @@ PLAN = {
     },
     "C04": {
         "level": "model_checking",
-        "parts": [part("mc_proto", "c04", q=4, t=16)],
+        "parts": [part("mc_proto", "c04", q=4, t=16), part("mc_client", "c04", q=1, t=4)],
         "assumptions": [],
     },
     "C05": {
         "level": "model_checking",
-        "parts": [part("mc_proto", "c05", q=4, t=16)],
+        "parts": [part("mc_proto", "c05", q=4, t=16), part("mc_client", "c05", q=1, t=1)],
         "assumptions": ["for a oneway request a continues-without-more reply attempt may return Ok or the mismatch error (nothing is written either way)"],
     },
     "C06": {
@@ -56,5 +56,10 @@ PLAN = {
         "level": "model_checking",
         "parts": [part("mc_server", "c15", q=16, t=16, tq=200, tt=2400)],
         "assumptions": ["virtual clock: an accept timeout advances time by exactly the requested timeout", "Listener::new binds a real socket path per execution so the unlink clause is observed on the real file system"],
+    },
+    "C07": {
+        "level": "model_checking",
+        "parts": [part("mc_client", "c07", q=2, t=16), part("mc_client", "c07t", q=16, t=16, tq=200, tt=2400)],
+        "assumptions": ["the peer answers requests in arrival order; client threads park before every connection-lock acquisition and every read"],
     },
 }
